@@ -405,6 +405,14 @@ def run(ctx):
     kinds = ["sched", "sched", "sched", "releasable", "notify", "notify", "ready", "resolve", "topo", "dfs", "flags"]
     triples = [rand_case(rng, kinds) for _ in range(n)]
     triples += [sane_case(rng) for _ in range(n // 4)]
+    # recorded witnesses of the refuted unrestricted forms: the model's answer must be the real code's answer
+    import json
+    import os
+    wfile = os.path.join(core.ROOT, "corpus", "C18", "no_plan_ahead_witnesses.json")
+    witnesses = json.load(open(wfile))["witnesses"] if os.path.exists(wfile) else []
+    w_at = len(triples)
+    for w in witnesses:
+        triples.append((w["adj"], {int(k): v for k, v in w["tasks"].items()}, w["op"]))
     # monotonicity pairs: the same graph / draws with a larger lookahead and/or release_taskgraphs
     pairs = []
     for i in range(len(triples)):
@@ -428,6 +436,9 @@ def run(ctx):
     res = run_correspondence(ctx, "S-taskgraph", triples,
                              "the real TaskGraph operation and the model disagree (returned task list in order / states afterwards)")
     ctx.sample({"stream": "S-taskgraph", "mapping": triples[0][0], "op": triples[0][2], "impl": res[0]})
+    for k, w in enumerate(witnesses):
+        if res[w_at + k] != w["expect"]:
+            ctx.cov.setdefault("notes", []).append("witness %s now answers %s (recorded %s)" % (w["name"], res[w_at + k], w["expect"]))
 
     # ---- S-workload
     wl_cases = []
